@@ -563,7 +563,16 @@ func (x *Exec) indexVal(st *State, sc *scope, xv, iv Val) (Val, error) {
 		}
 		n, s := elemArrName(sort)
 		arr := heapArrIn(x, x.heapFor(st, sc), n, s)
-		return Val{T: Select(Select(arr, App(SRef, "s.base", xv.T)), App(SInt, "+", App(SInt, "s.off", xv.T), iv.T)), Typ: et}, nil
+		base, idx := App(SRef, "s.base", xv.T), App(SInt, "+", App(SInt, "s.off", xv.T), iv.T)
+		res := Val{T: Select(Select(arr, base), idx), Typ: et}
+		if st != nil && st.meta != nil && !sc.inOld {
+			// what is statically known about this cell (dynamic type of an interface element)
+			key := lvKey(&LVal{Kind: "elems", Root: base, Path: []lstep{{isIdx: true, idx: idx}}})
+			if mv, ok := st.meta[key]; ok {
+				res.Dyn, res.Clo, res.Fn = mv.Dyn, mv.Clo, mv.Fn
+			}
+		}
+		return res, nil
 	case strings.HasPrefix(xv.T.Sort, "(Array "):
 		var et types.Type
 		if xv.Typ != nil {
@@ -830,6 +839,28 @@ func (x *Exec) evalCall(st *State, fr *Frame, e ECall, sc *scope) (Val, error) {
 			// no such call on this path: an arbitrary value (sound: unconstrained) of the callee's
 			// result type when a function of that name is known, else an interface value (lastret
 			// is mostly used on error results)
+			if x.Top != nil {
+				// a call site of the function under contract names the callee (library functions too)
+				for _, b := range x.Top.Blocks {
+					for _, in := range b.Instrs {
+						c, ok := in.(*ssa.Call)
+						if !ok {
+							continue
+						}
+						if n := staticCalleeName(c.Common()); n != "" && matchCallee(lit.V, n) {
+							res := c.Common().Signature().Results()
+							if res.Len() == 0 {
+								continue
+							}
+							i := res.Len() - 1
+							if k >= 0 && k < res.Len() {
+								i = k
+							}
+							return x.freshVal(st, "lastret.none", res.At(i).Type()), nil
+						}
+					}
+				}
+			}
 			for _, name := range sortedKeys(x.P.Funcs) {
 				if !matchCallee(lit.V, name) {
 					continue
